@@ -420,6 +420,9 @@ func handleLoad(params internal.HandlerFuncParams) ([]byte, error) {
 		}
 	}
 
+	// The loaded rules may name key and channel patterns this server has not compiled yet.
+	acl.CompileGlobs()
+
 	return []byte(constants.OkResponse), nil
 }
 
